@@ -320,6 +320,12 @@ func genC06(tier string, r *rng) {
 			writerSeq(sd, 1, ctor, "-", "-", 7, []string{"av", "w:" + hx(r.bytes(5)), "fl"})
 		}
 	}
+	// NewWriterSize around the header-size thresholds (the header for n payload bytes vs. the reservation for the whole buffer)
+	for _, sd := range sides {
+		for _, n := range []int{120, 124, 125, 126, 127, 128, 129, 130, 131, 132, 133, 134, 65530, 65535, 65536, 65537, 65540, 65545} {
+			writerSeq(sd, 2, "size:"+strconv.Itoa(n), "-", "-", 8, []string{"av", "w:" + hx(r.bytes(n)), "av", "fl", "w:" + hx(r.bytes(n+1)), "fl"})
+		}
+	}
 	// random long sequences, growth with flush disabled, extensions, resets
 	n := 1500
 	maxLen := 30
